@@ -31,6 +31,8 @@ use compio_runtime::{Runtime, fd::AsyncFd};
 use hx_common::*;
 
 const PIPE_LIMIT: usize = 32768;
+/// writes / truncations beyond this position are not executed (sparse giant files, EFBIG + SIGXFSZ)
+const WRITE_LIMIT: u64 = 1 << 24;
 
 // ---------------------------------------------------------------------------------------------
 // buffers
@@ -419,6 +421,9 @@ async fn compio_line(st: &mut CState, dir: &Path, w: &[&str]) -> Obs {
             if !sh.wf() {
                 return try_construct(&[sh]);
             }
+            if pos > WRITE_LIMIT && pos != u64::MAX {
+                return obs("unsupported");
+            }
             let mut f = f;
             let r = match mk_any(&sh) {
                 AnyBuf::V(v) => f.write_at(v, pos).await.0,
@@ -436,6 +441,9 @@ async fn compio_line(st: &mut CState, dir: &Path, w: &[&str]) -> Obs {
             if !wf_all(&shs) {
                 return try_construct(&shs);
             }
+            if pos > WRITE_LIMIT && pos != u64::MAX {
+                return obs("unsupported");
+            }
             let all_plain = shs.iter().all(|s| !s.sliced);
             let r = if all_plain && shs.len() == 2 {
                 wr_at(f, [mk_vec(&shs[0]), mk_vec(&shs[1])], pos).await
@@ -452,6 +460,9 @@ async fn compio_line(st: &mut CState, dir: &Path, w: &[&str]) -> Obs {
         ["setlen", h, n] => {
             let (Some(h), Some(n)) = (num(h), num(n)) else { return obs("bad-op") };
             let Some(f) = st.files.get(&h) else { return obs("nohandle") };
+            if n > WRITE_LIMIT {
+                return obs("unsupported");
+            }
             res_obs(f.set_len(n).await)
         }
         ["sync", h, which] => {
@@ -828,6 +839,9 @@ fn os_line(st: &mut OState, dir: &Path, w: &[&str]) -> Obs {
             if !sh.wf() {
                 return obs("panic");
             }
+            if pos > WRITE_LIMIT && pos != u64::MAX {
+                return obs("unsupported");
+            }
             // std's own positional write
             wr(f.write_at(sh.visible(), pos))
         }
@@ -838,11 +852,17 @@ fn os_line(st: &mut OState, dir: &Path, w: &[&str]) -> Obs {
             if !wf_all(&shs) {
                 return obs("panic");
             }
+            if pos > WRITE_LIMIT && pos != u64::MAX {
+                return obs("unsupported");
+            }
             wr(os_write(f.as_raw_fd(), &shs, Some(pos), true))
         }
         ["setlen", h, n] => {
             let (Some(h), Some(n)) = (num(h), num(n)) else { return obs("bad-op") };
             let Some(f) = st.files.get(&h) else { return obs("nohandle") };
+            if n > WRITE_LIMIT {
+                return obs("unsupported");
+            }
             res_obs(f.set_len(n))
         }
         ["sync", h, which] => {
@@ -1226,16 +1246,33 @@ fn gen_hostile_case(rng: &mut Rng) -> Vec<String> {
     l.push(format!("open 1 a {}", bits(true, true, false, true, false)));
     l.push(format!("writeat 1 0 {}:2", hex(&rng.bytes(9))));
     for _ in 0..rng.range(3, 8) {
-        match rng.below(10) {
+        match rng.below(11) {
             0 => l.push(format!("readat 7 0 {}", gen_rbuf(rng))),
             1 => l.push("readat 1 0 4:2:0:3:-".into()),
             2 => l.push("readat 1 0 4:2:0:2:1".into()),
-            3 => l.push(format!("readat 1 {} 8:0:1", *rng.pick(&[1u64 << 31, 1 << 32, (1 << 40) + 3, i64::MAX as u64]))),
+            3 => l.push(format!("readat 1 {} 8:0:1", *rng.pick(&[1u64 << 31, 1 << 32, (1 << 40) + 3, i64::MAX as u64, i64::MAX as u64 - 8, i64::MAX as u64 - 7, 1 << 63, u64::MAX - 1]))),
             4 => l.push("readv 1 0 .".into()),
             5 => l.push("writev 1 3 .".into()),
             6 => l.push(format!("readv 1 2 0:0:1,{},0:0:2", gen_rbuf(rng))),
             7 => l.push(format!("writev 1 {} -:0,{},-:3", rng.below(20), gen_wbuf(rng))),
             8 => l.push("close 5".into()),
+            9 if rng.chance(1, 3) => {
+                // offset u64::MAX (finding C08c)
+                if rng.chance(1, 2) {
+                    l.push(format!("readat 1 {} 4:0:9", u64::MAX));
+                } else {
+                    l.push(format!("writeat 1 {} {}:0", u64::MAX, hex(&rbytes(rng, 1, 3))));
+                }
+            }
+            9 if rng.chance(1, 2) => {
+                // zero-length reads of a directory handle (finding C08b)
+                l.push("mkdir d".into());
+                l.push("open 3 d 10000".into());
+                l.push(format!("readat 3 {} 0:0:1", rng.below(3)));
+                l.push("readv 3 0 0:0:1,0:0:2".into());
+                l.push("readv 3 0 0:0:1,2:0:2".into());
+                l.push("close 3".into());
+            }
             _ => l.push(format!("setlen 1 {}", rng.below(4096))),
         }
     }
@@ -1322,7 +1359,7 @@ fn main() {
         if std::env::var("C08_TIMING").is_ok() {
             eprintln!("T {} {:?} {:?} {:?}", case.name, t1 - t0, t2 - t1, t3 - t2);
         }
-        let mut tainted = false;
+        let mut tainted: Option<&'static str> = None;
         let mut n_ok = 0;
         for (i, line) in case.lines.iter().enumerate() {
             let op = line.split_whitespace().next().unwrap_or("");
@@ -1339,7 +1376,21 @@ fn main() {
             if a[i].text.starts_with("err") {
                 ex.tag(format!("err:{}", a[i].text));
             }
-            let sig = |s: &str| if fseq || tainted { "C08a:asyncfd-seq-regular-file".to_string() } else { s.to_string() };
+            let words: Vec<&str> = line.split_whitespace().collect();
+            let minus_one = matches!(op, "readat" | "readv" | "writeat" | "writev") && words.get(2) == Some(&"18446744073709551615");
+            let zero_read_dir = op == "readat"
+                && words.get(3).and_then(|b| parse_rbuf(b)).map(|s| s.wf() && s.window().1 == 0).unwrap_or(false)
+                && o[i].text == "err 21";
+            let known = if fseq {
+                Some("C08a:asyncfd-seq-regular-file")
+            } else if minus_one {
+                Some("C08c:iour-offset-minus-one")
+            } else if zero_read_dir {
+                Some("C08b:iour-zero-read-directory")
+            } else {
+                tainted
+            };
+            let sig = |s: &str| known.map(|k| k.to_string()).unwrap_or(s.to_string());
             let mut bad = false;
             for (drv, x) in [("io_uring", &a[i]), ("polling", &b[i])] {
                 if x.cmp != o[i].cmp {
@@ -1359,8 +1410,10 @@ fn main() {
                 bad = true;
                 ex.fail(sig("C08:driver-divergence"), format!("line {i} `{line}`: io_uring `{}` but polling `{}`", a[i].text, b[i].text));
             }
-            if bad && fseq {
-                tainted = true;
+            if bad && (fseq || minus_one) {
+                // the file position / content of the two drivers now differ: later differences of this case
+                // are consequences of the same defect
+                tainted = known;
             }
         }
         ex.nontrivial = n_ok >= 3;
